@@ -23,6 +23,8 @@
 #include <streams.h>
 #include <util/time.h>
 
+#include <sys/resource.h>
+
 using namespace ck;
 
 namespace {
@@ -266,7 +268,9 @@ void c39_part_b(bool big, unsigned workers)
 {
     auto& E = vx::ev();
     vx::scratch_dir();
-    Node n;
+    NodeOpts nopts;
+    nopts.min_validation_cache = true; // every transition fork()s this process: keep the image small
+    Node n(nopts);
     RefLedger L;
     L.AddGenesis(Params().GenesisBlock());
     SetMockTime(Params().GenesisBlock().nTime + 600 * 105); // the tip must be recent: transactions are ignored during initial block download
@@ -289,17 +293,31 @@ void c39_part_b(bool big, unsigned workers)
     sim.A->TakeSent(); sim.B->TakeSent(); sim.Q->TakeSent();
     if (sim.A->disconnect_flag() || sim.B->disconnect_flag() || sim.Q->disconnect_flag()) { printf("HARNESS-ERROR property=C39 part b: a peer was disconnected during setup\n"); n.m_node.peerman.release(); exit(2); }
 
+    if (getenv("C39B_FORKTEST")) {
+        struct rusage r0, r1; getrusage(RUSAGE_CHILDREN, &r0);
+        double t0 = vx::elapsed();
+        for (int i = 0; i < 20; i++) { pid_t p = fork(); if (p == 0) _exit(0); int st; waitpid(p, &st, 0); }
+        double t1 = vx::elapsed();
+        for (int i = 0; i < 20; i++) { pid_t p = fork(); if (p == 0) { sim.apply("M0"); sim.key(); _exit(0); } int st; waitpid(p, &st, 0); }
+        double t2 = vx::elapsed();
+        getrusage(RUSAGE_CHILDREN, &r1);
+        FILE* sf = fopen("/proc/self/statm", "r"); long vm = 0, rss = 0; if (sf) { if (fscanf(sf, "%ld %ld", &vm, &rss) != 2) {} fclose(sf); }
+        fprintf(stderr, "[forktest] empty fork %.1f ms, fork+M0 %.1f ms wall; children cpu %.2fs; vm %ld MB rss %ld MB\n", (t1 - t0) / 20 * 1e3, (t2 - t1) / 20 * 1e3,
+                (r1.ru_utime.tv_sec - r0.ru_utime.tv_sec) + (r1.ru_utime.tv_usec - r0.ru_utime.tv_usec) / 1e6 + (r1.ru_stime.tv_sec - r0.ru_stime.tv_sec) + (r1.ru_stime.tv_usec - r0.ru_stime.tv_usec) / 1e6, vm * 4 / 1024, rss * 4 / 1024);
+    }
     const uint64_t states0 = E.states.load(), trans0 = E.transitions.load();
     vx::ForkSim& fs = sim.fs;
     fs.events = [&] { return sim.events(); };
     fs.apply = [&](const std::string& e) { sim.apply(e); };
     fs.key = [&] { return sim.key(); };
-    fs.max_depth = big ? 6 : 4;
+    fs.max_depth = big ? 5 : 3; // ~0.1-0.3 s of CPU per transition (fork of the node process) on the shared machine
     fs.split_depth = 1;
     fs.workers = workers;
     fs.table_bits = 20;
     // share of the deadline for this part
-    fs.budget_s = vx::elapsed() + (big ? 600 : 70);
+    fs.budget_s = vx::elapsed() + (big ? 700 : 100);
+    if (const char* e = getenv("C39B_DEPTH")) fs.max_depth = atoi(e);      // experimentation only
+    if (const char* e = getenv("C39B_BUDGET")) fs.budget_s = vx::elapsed() + atof(e);
     fs.run();
     E.set("partb_states", E.states.load() - states0);
     E.set("partb_transitions", E.transitions.load() - trans0);
